@@ -25,7 +25,7 @@ SPEC = PropertySpec(
 )
 SPEC.assumptions += [
     "copy.deepcopy returns objects that share nothing with the source except what the __deepcopy__ hooks share on purpose (Class.parent, ClassModificationArgument.scope)",
-    "reviewed exceptions (2): the unqualified-import memo Class._find_class: self.imports[name] = ...; tree-owned constant Symbols placed in the instance tree and normalised idempotently (DESIGN.md C05)",
+    "no reviewed exceptions: every statement that may write to a tree-owned object is a violation (two writes that were once waved through turned out to be the defects D29 and D30, DESIGN.md A.5)",
 ]
 
 
